@@ -1654,6 +1654,11 @@ def declare_rules(ck):
     ck.rule("E10.target-numbering", "whole TargetRefineWrapper<Shape> run: target rows follow the part's own fine numbering, target values the parent's fine numbering (both = numbering of E10.numbering)", min_instances=28)
     ck.rule("E10.simple-target", "parts without topology (SimpleTargetRefineWrapper run): the fine cd-entities of part entity i are stored at the part's own fine numbering and mapped bijectively "
             "onto the children of parent entity target[i] in the parent's fine numbering", min_instances=36)
+    ck.rule("E10.refine-parent", "mesh_node.hpp: every StandardRefinery<MeshPart> built while a node is refined (halos, patches, MeshPartNode::refine) and every MeshPartNode::refine(parent) call gets the coarse mesh "
+            "of the node being refined - the object the mesh refinery of the same function refines, or a const parent parameter - never something derived from a refinery product / the node under construction "
+            "(the parent supplies the coarse entity counts for the target offsets: any halo/patch/part with edges or cells is mis-targeted otherwise)", min_instances=36)
+    ck.rule("E10.perm-inverse-pair", "MeshPermutation: a member that establishes forward permutations _perms[d] (assignment, whole array handed to a helper, delegation) also establishes _inv_perms[d] = _perms[d].inverse() "
+            "(or the corresponding copy) for the same dimensions d, after the forward one and under the same conditions (an empty inverse means 'not renumbered' to TargetSet::permute_map: parts with cells keep stale cell targets)", min_instances=42)
     ck.rule("E10.dual-adapt", "DualAdaptor::adapt (refine_unique with AdaptMode::dual): the only fine vertices modified are the cell midpoints, numbered like the vertex refiner numbers them "
             "(sum of the coarse entity counts of lower dimension + i), each written once (cleared first) as the mean of the facet midpoints of its own cell, addressed by the facet-midpoint offset "
             "of the same numbering (any hexahedral mesh with AdaptMode::dual otherwise gets wrong geometry)", min_instances=6)
@@ -2114,6 +2119,321 @@ def check_callsites(ck, facts):
                 ck.ob(R, key, ok, "fine counts computed from the counts of %s; the refined index sets are those of member %s, initialised from %s" % (root, coarse, sorted(mine)), f.file, c.get("l"))
 
 
+# =================================================================================================
+# mesh nodes: the parent handed to a mesh-part refinery; mesh permutations: forward/inverse pairs
+# =================================================================================================
+
+def origin(n, fn, inits, depth=0):
+    """root of an object expression: ('member', name) | ('param', name) | ('local', name, decl id) | None"""
+    while n is not None and depth < 16:
+        depth += 1
+        k = n.get("k")
+        if k == "Cast":
+            n = n["e"]
+        elif k == "Un" and n.get("op") in ("*", "&"):
+            n = n["e"]
+        elif k == "OpCall" and n.get("op") in ("*", "->") and n.get("a"):
+            n = n["a"][0]
+        elif k == "MCall" and n.get("obj") is not None:
+            n = n["obj"]
+        elif k == "Index":
+            n = n["b"]
+        elif k == "Member":
+            if n.get("b", {}).get("k") == "This":
+                return ("member", n["n"])
+            n = n.get("b")
+        elif k == "Ref":
+            if n.get("dk") == "param":
+                return ("param", n["n"])
+            if n.get("dk") == "local":
+                ini = inits.get(n["d"])
+                if ini is not None and ini.get("k") in ("Ref", "Member", "Un", "Cast", "MCall", "OpCall", "Index"):
+                    r = origin(ini, fn, inits, depth)
+                    if r is not None:
+                        return r
+                return ("local", n["n"], n["d"])
+            return None
+        else:
+            return None
+    return None
+
+
+REFINE_PRODUCT = r"(::refine_unique$|MeshPartNode<.*>::refine$|::refine_children$)"
+
+
+def tainted_by_refinement(n, fn, inits, seen=None):
+    """the expression (or the initialiser of a local it names) contains the product of a refinery: a call on / a
+    construction from an object of a StandardRefinery type (Factory::make, make_unique, Mesh(factory)), or a refine call"""
+    seen = seen if seen is not None else set()
+    for x in featlib.walk(n):
+        if featlib.is_call(x):
+            if re.search(REFINE_PRODUCT, x.get("callee", "")):
+                return True
+            operands = ([x["obj"]] if x.get("obj") is not None else []) + list(x.get("a", []))
+            if any("StandardRefinery<" in (fn.ntype(o) or "") for o in operands):
+                return True
+        if x.get("k") == "Ref" and x.get("dk") == "local" and x["d"] in inits and x["d"] not in seen:
+            seen.add(x["d"])
+            if tainted_by_refinement(inits[x["d"]], fn, inits, seen):
+                return True
+    return False
+
+
+def check_refine_parent(ck, facts):
+    """every StandardRefinery<MeshPart> built while refining a node gets the *coarse* mesh of that node as parent"""
+    R = "E10.refine-parent"
+    for f in facts.functions:
+        if f.tk == "pattern" or f.body is None or "/kernel/geometry/mesh_node.hpp" not in f.file:
+            continue
+        sites = []
+        for n in f.nodes():
+            if n.get("k") in ("Construct", "TempObj") and re.match(r"^FEAT::Geometry::StandardRefinery<FEAT::Geometry::MeshPart<", n.get("ccls", "")) and len(n.get("a", [])) == 2:
+                sites.append(("refinery", n, n["a"][1]))
+            if n.get("k") == "MCall" and re.search(r"MeshPartNode<.*>::refine$", n.get("callee", "")) and len(n.get("a", [])) == 1:
+                sites.append(("refine-call", n, n["a"][0]))
+        if not sites:
+            continue
+        inits = local_inits(f)
+        # the coarse mesh of this refinement step: what the mesh refinery of the same function is built from
+        coarse = {origin(n["a"][0], f, inits) for n in f.nodes() if n.get("k") in ("Construct", "TempObj")
+                  and re.match(r"^FEAT::Geometry::StandardRefinery<FEAT::Geometry::(ConformalMesh|StructuredMesh)<", n.get("ccls", "")) and len(n.get("a", [])) == 1}
+        for num, (kind, n, parg) in enumerate(sites):
+            key = "%s::%s/%s%d" % (short(f.cls)[:110], f.name, kind, num)
+            o = origin(parg, f, inits)
+            if o is None:
+                ck.incomplete(R, "%s: origin of the parent argument %s not traceable" % (key, featlib.render(parg)))
+                continue
+            if o[0] == "member":
+                ok = not coarse or o in coarse
+                ck.ob(R, key, ok, "parent is member %s%s" % (o[1], "" if ok else " but the mesh refinery of this function refines %s" % sorted(coarse, key=repr)), f.file, n.get("l"))
+            elif o[0] == "param":
+                pt = f.param_type(o[1]) or ""
+                const_in = pt.lstrip().startswith("const ")
+                ck.ob(R, key, const_in, "parent is parameter %s (%s)%s" % (o[1], pt, "" if const_in else ": a mutable reference parameter is the node under construction, not the coarse parent"), f.file, n.get("l"))
+            else:
+                if tainted_by_refinement(parg, f, inits):
+                    ck.ob(R, key, False, "parent %s is derived from the result of a refinery (the refined node/mesh), expected the coarse mesh %s" % (
+                        featlib.render(parg), sorted(coarse, key=repr) if coarse else "of the node being refined"), f.file, n.get("l"))
+                else:
+                    ck.incomplete(R, "%s: parent argument %s is a computed local" % (key, featlib.render(parg)))
+
+
+def const_int(n):
+    while n is not None and n.get("k") == "Cast":
+        n = n["e"]
+    if n is None:
+        return None
+    if n.get("k") == "Int":
+        return int(n["v"])
+    if n.get("k") == "Ref" and "v" in n:
+        return int(n["v"])
+    if n.get("k") == "Bin" and n.get("op") in ("+", "-"):
+        a, b = const_int(n["lhs"]), const_int(n["rhs"])
+        if a is not None and b is not None:
+            return a + b if n["op"] == "+" else a - b
+    return None
+
+
+def loop_range(forn):
+    """for(T v(lo); v < / <= hi; ++v) with constant bounds -> (decl id, range)"""
+    init, c, inc = forn.get("init"), forn.get("c"), forn.get("inc")
+    if not (init and init.get("k") == "Decl" and len(init["vars"]) == 1 and c and c.get("k") == "Bin" and c.get("op") in ("<", "<=") and inc and inc.get("k") == "Un" and inc.get("op") == "++"):
+        return None
+    var = init["vars"][0]
+    lo = const_int(var.get("init"))
+    lhs = c["lhs"]
+    while lhs.get("k") == "Cast":
+        lhs = lhs["e"]
+    hi = const_int(c["rhs"])
+    e = inc["e"]
+    if lo is None or hi is None or lhs.get("k") != "Ref" or lhs.get("d") != var["d"] or e.get("k") != "Ref" or e.get("d") != var["d"]:
+        return None
+    return var["d"], range(lo, hi + (1 if c["op"] == "<=" else 0))
+
+
+def check_perm_pairs(ck, facts):
+    """MeshPermutation: whoever establishes forward permutations _perms[d] establishes the inverse _inv_perms[d] of the same d"""
+    R = "E10.perm-inverse-pair"
+    classes = sorted({f.cls for f in facts.functions if f.tk != "pattern" and re.match(r"^FEAT::Geometry::MeshPermutation<FEAT::Shape::\w+<\d>>$", f.cls)})
+    for cls in classes:
+        fns = [f for f in facts.functions if f.cls == cls and f.tk != "pattern" and f.body is not None]
+        sh = shape_of(cls)
+        N = sh[1] + 1
+        summaries = {}
+
+        def slots_of(acc, anc):
+            """slot set named by an accessor expression on _perms/_inv_perms: (member name, this?, slots, index text) or None"""
+            e = acc
+            for _ in range(6):
+                if e.get("k") == "Cast":
+                    e = e["e"]
+                elif e.get("k") == "Ref" and e.get("dk") == "local" and e.get("d") in cur_inits[0]:
+                    e = cur_inits[0][e["d"]]        # reference alias of a slot
+                else:
+                    break
+            idx = None
+            if e.get("k") == "MCall" and e.get("n") in ("at", "back", "front") and e.get("obj") is not None:
+                base, idx = e["obj"], (e["a"][0] if e.get("n") == "at" and e.get("a") else None)
+                kind = e["n"]
+            elif e.get("k") == "OpCall" and e.get("op") == "[]" and len(e.get("a", [])) == 2:
+                base, idx, kind = e["a"][0], e["a"][1], "at"
+            elif e.get("k") == "Member":
+                base, kind = e, "all"
+            else:
+                return None
+            while base.get("k") == "Cast":
+                base = base["e"]
+            if base.get("k") != "Member" or base.get("n") not in ("_perms", "_inv_perms"):
+                return None
+            mine = base.get("b", {}).get("k") == "This"
+            if kind == "all":
+                return (base["n"], mine, set(range(N)), "*")
+            if kind == "back":
+                return (base["n"], mine, {N - 1}, "back")
+            if kind == "front":
+                return (base["n"], mine, {0}, "front")
+            ci = const_int(idx)
+            if ci is not None:
+                return (base["n"], mine, {ci}, str(ci))
+            ix = idx
+            while ix is not None and ix.get("k") == "Cast":
+                ix = ix["e"]
+            if ix is not None and ix.get("k") == "Ref":
+                for a in anc:
+                    if a.get("k") == "For":
+                        lr = loop_range(a)
+                        if lr and lr[0] == ix.get("d"):
+                            return (base["n"], mine, set(lr[1]), "loop:%s" % ix["d"])
+            return (base["n"], mine, None, featlib.render(idx) if idx is not None else "?")
+
+        cur_inits = [{}]
+
+        def scan(f):
+            fw, inv, unknown = [], [], []     # (slots, index text, if-chain, order, line[, rhs class])
+            order = [0]
+            cur_inits[0] = local_inits(f)
+
+            def visit(n, anc):
+                order[0] += 1
+                here = order[0]
+                k = n.get("k")
+                lhs = rhs = None
+                if k == "OpCall" and n.get("op") == "=" and len(n.get("a", [])) == 2:
+                    lhs, rhs = n["a"]
+                elif k == "Assign" and n.get("op") == "=":
+                    lhs, rhs = n["lhs"], n["rhs"]
+                ifs = tuple((a.get("i"), a.get("br")) for a in anc if a.get("k") == "IfBranch")
+                if lhs is not None:
+                    s = slots_of(lhs, anc)
+                    if s is not None and s[1]:
+                        if s[2] is None:
+                            unknown.append("slot %s.at(%s) (line %s)" % (s[0], s[3], n.get("l")))
+                        elif s[0] == "_perms":
+                            fw.append((s[2], s[3], ifs, here, n.get("l")))
+                        else:
+                            r = rhs
+                            while r.get("k") in ("Cast",) or (r.get("k") == "Call" and r.get("callee", "").startswith("std::") and len(r.get("a", [])) == 1):
+                                r = r["e"] if r.get("k") == "Cast" else r["a"][0]
+                            cls_r = "unknown"
+                            if r.get("k") == "MCall" and r.get("n") == "inverse":
+                                so = slots_of(r["obj"], anc)
+                                if so is not None and so[0] == "_perms" and so[1]:
+                                    cls_r = "inverse-same" if so[3] == s[3] else "inverse-other:%s" % so[3]
+                            elif r.get("k") == "MCall" and r.get("n") == "clone":
+                                so = slots_of(r["obj"], anc)
+                                if so is not None and so[0] == "_inv_perms" and not so[1] and so[3] == s[3]:
+                                    cls_r = "copy-same"
+                            else:
+                                so = slots_of(r, anc)
+                                if so is not None and so[0] == "_inv_perms" and not so[1] and so[3] == s[3]:
+                                    cls_r = "copy-same"
+                            inv.append((s[2], s[3], ifs, here, n.get("l"), cls_r))
+                if featlib.is_call(n) and not (k == "OpCall" and n.get("op") == "="):
+                    # whole arrays handed to a callee in a mutable position; members of the same class called on this
+                    for a, pt in zip(n.get("a", []), n.get("pt", [])):
+                        aa = a
+                        while aa.get("k") == "Cast":
+                            aa = aa["e"]
+                        if aa.get("k") == "Member" and aa.get("b", {}).get("k") == "This" and aa.get("n") in ("_perms", "_inv_perms"):
+                            ty = f.type(pt) or ""
+                            if ty.rstrip().endswith("&") and not ty.lstrip().startswith("const "):
+                                if aa["n"] == "_perms":
+                                    fw.append((set(range(N)), "*", ifs, here, n.get("l")))
+                                else:
+                                    unknown.append("_inv_perms passed to %s (line %s)" % (n.get("callee"), n.get("l")))
+                    for a in n.get("a", []):
+                        aa = a
+                        while aa.get("k") in ("Cast", "Un"):
+                            aa = aa["e"]
+                        if aa.get("k") == "This":
+                            unknown.append("the object itself is handed to %s (line %s)" % (n.get("callee"), n.get("l")))
+                    if k == "MCall" and (n.get("obj") is None or n.get("obj", {}).get("k") == "This"):
+                        callee = [g for g in fns if g.qn == n.get("callee") and len(g.params) == len(n.get("pn", []))]
+                        if not callee and not n.get("cconst") and n.get("ccls") == cls:
+                            unknown.append("non-const member %s without analysed body is called (line %s)" % (n.get("callee"), n.get("l")))
+                        for g in callee[:1]:
+                            if g.full in summaries and summaries[g.full] is not None:
+                                gfw, ginv, gunk = summaries[g.full]
+                                for x in gfw:
+                                    fw.append((x[0], x[1], ifs, here, n.get("l")))
+                                for x in ginv:
+                                    inv.append((x[0], "callee:" + x[1], ifs, here, n.get("l"), x[5] if x[5].startswith("inverse-same") or x[5] == "copy-same" else x[5]))
+                                unknown.extend(gunk)
+                if k == "If":
+                    for nm in ("init", "c"):
+                        if n.get(nm) is not None:
+                            visit(n[nm], anc + [n])
+                    for br in ("then", "else"):
+                        if n.get(br) is not None:
+                            visit(n[br], anc + [n, {"k": "IfBranch", "i": n.get("i"), "br": br}])
+                    return
+                for c in featlib.children(n):
+                    visit(c, anc + [n])
+            for ini in f.d.get("inits", []) or []:
+                if ini.get("member") in ("_perms", "_inv_perms"):
+                    so = None
+                    for x in featlib.walk(ini.get("init")):
+                        if x.get("k") == "Member" and x.get("n") == ini["member"] and x.get("b", {}).get("k") != "This":
+                            so = x
+                    if ini["member"] == "_perms":
+                        fw.append((set(range(N)), "*", (), 0, ini.get("l")))
+                    else:
+                        inv.append((set(range(N)), "*", (), 0, ini.get("l"), "copy-same" if so is not None else "unknown"))
+            visit(f.body, [])
+            return fw, inv, unknown
+
+        # callees first (two rounds are enough for the delegation depth in this class)
+        for _ in range(2):
+            for f in fns:
+                summaries[f.full] = scan(f)
+        for f in fns:
+            fw, inv, unknown = summaries[f.full]
+            if not fw:
+                continue
+            key = "%s::%s%s" % (short(cls), f.name, "/%d" % len(f.params) if sum(1 for g in fns if g.name == f.name) > 1 else "")
+            F = set().union(*[x[0] for x in fw])
+            prob, inc = [], list(unknown)
+            for d in sorted(F):
+                wr = [x for x in fw if d in x[0]]
+                last = max(wr, key=lambda x: x[3])
+                cands = [x for x in inv if d in x[0]]
+                good = [x for x in cands if x[5] in ("inverse-same", "copy-same") and x[3] >= last[3] and (x[2] == last[2] or not x[2])]
+                if good:
+                    continue
+                if any(x[5] == "unknown" for x in cands):
+                    inc.append("inverse permutation of dimension %d is assigned from an expression that is not recognised (line %s)" % (d, [x[4] for x in cands if x[5] == "unknown"][0]))
+                elif cands:
+                    x = cands[0]
+                    prob.append("_inv_perms[%d] is %s (line %s), not the inverse of _perms[%d] established at line %s" % (
+                        d, "the inverse of _perms.%s" % x[5].split(":", 1)[1] if x[5].startswith("inverse-other") else "set before / under another condition than the forward permutation", x[4], d, last[4]))
+                else:
+                    prob.append("_perms[%d] is established (line %s) but _inv_perms[%d] is not: readers such as TargetSet::permute_map treat an empty inverse as 'dimension not renumbered'" % (d, last[4], d))
+            if inc and not prob:
+                ck.incomplete(R, "%s: %s" % (key, "; ".join(inc[:3])))
+                continue
+            ck.ob(R, key, not prob, "; ".join(prob[:3]) or "forward and inverse permutations established for dimensions %s" % sorted(F), f.file, f.line)
+
+
 class Prefixed:
     """Check proxy that prefixes instance keys (second configuration of the same analysis)"""
 
@@ -2180,6 +2500,8 @@ def analyse(ck, facts, second_pass=False):
     check_child_geometry(T, ck, facts)
     check_dual_adaptor(T, ck, facts, vbases)
     if not second_pass:
+        check_refine_parent(ck, facts)
+        check_perm_pairs(ck, facts)
         check_callsites(ck, facts)
         check_flips(T, ck, facts)
     # assertions met while evaluating the glue classes on concrete local indices (visible in DEBUG parses)
